@@ -179,7 +179,7 @@ func c14Save(variant, sizeS, seedS, probe string) []string {
 
 	after, rerr := os.ReadFile(dest)
 	finalOK := rerr == nil && bytes.Equal(after, expected)
-	if probe == "faildir" {
+	if probe == "faildir" || vc14.FsizeOf(probe) >= 0 {
 		// The save cannot succeed; it must say so and leave the file alone.
 		committed = false
 		finalOK = err != nil && vc14.FileSum(dest) == oldSum
@@ -256,17 +256,26 @@ func (p *c14Parent) gen(r *rand.Rand, emit vutil.Emit) {
 				fault = "faildir"
 			case f == 1:
 				fault = "notmp"
+			case f == 2 || f == 3:
+				// Write fault: the file may not grow beyond lim bytes (EFBIG); the
+				// configuration is always longer than that.
+				lim := 0
+				if r.IntN(2) == 0 {
+					lim = r.IntN(size/2 + 1)
+				}
+				fault = "fsize=" + strconv.Itoa(lim)
 			}
 			probe := vc14.Probe(mode, fault)
+			failing := fault == "faildir" || strings.HasPrefix(fault, "fsize=")
 			if r.IntN(5) == 0 {
 				if size > 4<<20 {
 					sz = strconv.Itoa(4 << 20)
 				}
 				ver := strconv.Itoa(r.IntN(int(configmigrate.LastSchemaVersion)))
 				emit("C14.put", vutil.Hex(c14DestRel), sz, sd, ver)
-				emit("C14.save", "upgrade", sz, sd, vutil.B(fault != "faildir"), "0", probe)
+				emit("C14.save", "upgrade", sz, sd, vutil.B(!failing), "0", probe)
 			} else {
-				emit("C14.save", "write", sz, sd, vutil.B(fault != "faildir"), "0", probe)
+				emit("C14.save", "write", sz, sd, vutil.B(!failing), "0", probe)
 			}
 		}
 	}
